@@ -26,7 +26,8 @@ import (
 // `<origin>` must contain only alphanumerics, '.', ':', '[', ']', or '-'.
 // These restrictions do not enforce a well-formed domain name, so '.' and '1.2' are valid.
 //
-// `<pathStart>` is any character except `/` and `\`. Based on
+// `<pathStart>` is any character except `/`, `\`, TAB, LF and CR (URL parsers remove the last three
+// before they look at the URL). Based on
 // https://url.spec.whatwg.org/commit-snapshots/56b74ce7cca8883eab62e9a12666e2fac665d03d/#url-parsing,
 // an initial / which is not followed by another / or \ will end up in the "path state" and from there
 // it can only go to the "fragment state" and "query state".
@@ -38,7 +39,7 @@ func IsSafeTrustedResourceURLPrefix(prefix string) bool {
 // simple case folding would also accept U+017F (ſ) for 's' and U+212A (K) for 'k'.
 var safeTrustedResourceURLPrefixPattern = regexp.MustCompile(`^(?:` +
 	`(?:[hH][tT][tT][pP][sS]:)?//[0-9a-zA-Z.:\[\]-]+/|` +
-	`/[^/\\]|` +
+	`/[^/\\\t\n\r]|` +
 	`[aA][bB][oO][uU][tT]:[bB][lL][aA][nN][kK]#)`)
 
 // URLContainsDoubleDotSegment returns whether the given URL or URL substring
